@@ -952,6 +952,7 @@ func streamMapper(t *testing.T, o *Out) {
 
 	run := func(e *mpEnv, c *mpCase, id string) {
 		var impl string
+		o.Pre("mapper", id, c.Payload())
 		if c.Op == "rt" {
 			var cols map[string]string
 			impl, cols = e.runRt(c, r)
